@@ -367,6 +367,8 @@ type Exec struct {
 	allocCache     map[string]*Object
 	threadCache    map[string]*Thread
 	nRand          int
+	NFeasTimeouts  int
+	usedRandQueue  bool
 	nErr           int
 	randQueue      []*Term
 	KnownIDs       map[string]bool
@@ -471,7 +473,13 @@ func (ex *Exec) feasible(g *Term) bool {
 	if ex.Solver.dead {
 		ex.restartSolver()
 	}
+	nerr := len(ex.Solver.Errors)
 	r := ex.Solver.Check([]*Term{g}, ex.FeasTimeout)
+	if ex.Solver.dead && len(ex.Solver.Errors) == nerr+1 && strings.Contains(ex.Solver.Errors[nerr], "did not answer within its time limit") {
+		// a pruning query that ran out of time is simply unknown (the branch is kept): not an error
+		ex.Solver.Errors = ex.Solver.Errors[:nerr]
+		ex.NFeasTimeouts++
+	}
 	ex.Solver.Pop()
 	if d := time.Since(t0); d > 200*time.Millisecond && os.Getenv("VERIF_DEBUG") != "" {
 		fmt.Printf("[feas] %v -> %s (%d terms)\n", d, r, ex.tb.NumTerms())
